@@ -6,6 +6,7 @@ import (
 	"net/url"
 	"os"
 	"regexp"
+	"sort"
 	"strings"
 	"time"
 
@@ -152,6 +153,7 @@ func (c *ValCase) runImpl() string {
 	for i, u := range calls {
 		cs[i] = dotted(u)
 	}
+	sort.Strings(cs) // the order of loader calls is not an observable of any property; the multiset is
 	return fmt.Sprintf("%s unm=ok res=ok calls=%s v=%s", c.ID, strings.Join(cs, ","), vs.String())
 }
 
